@@ -65,4 +65,57 @@ theorem gen_max_list_members_insert_boundary :
     (tsInsert (tsOfLen Otel.Gen.C03.maxListMembers.toNat) [0x7a, 0x7a] [0x31]).map List.length = some Otel.Gen.C03.maxListMembers.toNat := by
   decide
 
+/-! ### the character classes of tracestate keys and values -/
+
+private theorem gen_alnum_iff (x : Int) :
+    Otel.Gen.C03.isAlphaNum x = true ↔ ((97 ≤ x ∧ x ≤ 122) ∨ (48 ≤ x ∧ x ≤ 57)) := by
+  unfold Otel.Gen.C03.isAlphaNum
+  by_cases h1 : (97 ≤ x ∧ x ≤ 122) <;> by_cases h2 : (48 ≤ x ∧ x ≤ 57) <;>
+    simp [h1, h2] <;> (try omega) <;> (repeat' split) <;> (try simp_all) <;> omega
+
+private theorem model_alnum_iff (c : UInt8) :
+    isAlphaNum c = true ↔ ((97 ≤ (c.toNat : Int) ∧ (c.toNat : Int) ≤ 122) ∨ (48 ≤ (c.toNat : Int) ∧ (c.toNat : Int) ≤ 57)) := by
+  unfold isAlphaNum; simp; omega
+
+/-- `checkValueChar` / `checkValueLast` / `isAlphaNum` as written today are the model's predicates, on every byte -/
+theorem gen_value_chars_eq_model (c : UInt8) :
+    Otel.Gen.C03.checkValueChar (c.toNat : Int) = checkValueChar c ∧
+    Otel.Gen.C03.checkValueLast (c.toNat : Int) = checkValueLast c ∧
+    Otel.Gen.C03.isAlphaNum (c.toNat : Int) = isAlphaNum c := by
+  refine ⟨?_, ?_, ?_⟩
+  · unfold Otel.Gen.C03.checkValueChar checkValueChar
+    generalize c.toNat = n
+    rw [Bool.eq_iff_iff]; simp; omega
+  · unfold Otel.Gen.C03.checkValueLast checkValueLast
+    generalize c.toNat = n
+    rw [Bool.eq_iff_iff]; simp; omega
+  · rw [Bool.eq_iff_iff, gen_alnum_iff, model_alnum_iff]
+
+/-- one iteration of the loop of `checkKeyRemain`: a byte that is lower-case alphanumeric or one of `_ - * /` moves on
+to the next byte, any other byte rejects the key — the model's `keyRemainByte` -/
+theorem gen_key_remain_step_eq_model (c : UInt8) :
+    Otel.Gen.C03.checkKeyRemainStep (c.toNat : Int) =
+      (if keyRemainByte c then "<continue>" else "false", ["v=key[i]"]) := by
+  have hg : ∀ x : Int, Otel.Gen.C03.checkKeyRemainStep x =
+      (if ((97 ≤ x ∧ x ≤ 122) ∨ (48 ≤ x ∧ x ≤ 57)) ∨ x = 95 ∨ x = 45 ∨ x = 42 ∨ x = 47 then "<continue>" else "false",
+       ["v=key[i]"]) := by
+    intro x
+    unfold Otel.Gen.C03.checkKeyRemainStep
+    by_cases h1 : (97 ≤ x ∧ x ≤ 122) <;> by_cases h2 : (48 ≤ x ∧ x ≤ 57) <;>
+      by_cases h3 : (x = 95 ∨ x = 45 ∨ x = 42 ∨ x = 47) <;>
+      simp [h1, h2, h3] <;> (try omega) <;> (repeat' split) <;> (try simp_all) <;> omega
+  have hm : keyRemainByte c = true ↔
+      (((97 ≤ (c.toNat : Int) ∧ (c.toNat : Int) ≤ 122) ∨ (48 ≤ (c.toNat : Int) ∧ (c.toNat : Int) ≤ 57)) ∨
+        (c.toNat : Int) = 95 ∨ (c.toNat : Int) = 45 ∨ (c.toNat : Int) = 42 ∨ (c.toNat : Int) = 47) := by
+    unfold keyRemainByte
+    rw [Bool.or_eq_true, Bool.or_eq_true, Bool.or_eq_true, Bool.or_eq_true, model_alnum_iff]
+    simp; omega
+  rw [hg]
+  by_cases hk : keyRemainByte c = true
+  · rw [if_pos (hm.mp hk)]; simp [hk]
+  · rw [if_neg (fun h => hk (hm.mpr h))]; simp [hk]
+
+/-- the sampled bit of the trace flags -/
+theorem gen_flags_sampled : Otel.Gen.C03.FlagsSampled = 1 := by decide
+
 end Otel.C03.GenTie
